@@ -6,7 +6,9 @@ import itertools
 
 from vlib.framework import BaseCheck, CaseResult
 
-TEXTS = ['', 'a', 'hello', 'héllo', '日本語テキスト', 'x' * 300, '\U0001f600 smile', 'tab\tnl\n', 'é' * 70]
+TEXTS = ['', 'a', 'hello', 'héllo', '日本語テキスト', 'x' * 300, '\U0001f600 smile', 'tab\tnl\n', 'é' * 70,
+         # text that means something to a formatter (%-style, str.format, logging)
+         'disk 100% full', 'bad key %s', '%(name)s %d', '{0} {x} {}', '50%']
 
 
 def gen_text(rng):
@@ -56,7 +58,7 @@ class C14(BaseCheck):
     """-> (iface_kind, method, args, kwargs, expected) ; expected = ('value', v) |
     ('declared', why, code) | ('declared-other', detail, n) | ('declared-third', tag) | ('app', text) | ('void',)"""
     from vlib.gen.verifsvc import ttypes
-    k = rng.choice(['hi', 'echo', 'echo', 'add', 'swap', 'flag', 'ping', 'fail', 'vfail', 'vfail-ok',
+    k = rng.choice(['hi', 'echo', 'echo', 'add', 'swap', 'flag', 'ping', 'fail', 'vfail', 'vfail-ok', 'concat',
                     'blob', 'names', 'extra', 'appexc', 'fail-other', 'fail-third', 'vfail-other'])
     if rng.random() < 0.04:
       k = 'huge'
@@ -92,6 +94,16 @@ class C14(BaseCheck):
         s = 'NONE:' + gen_text(rng)
         return iface, 'echo', (s,), {}, ('app', 'unknown result')
       return iface, 'echo', (s,), {}, ('app', 'app:' + s)
+    if k == 'concat':
+      # parameters numbered out of order in the IDL (2: first, 1: second), by position, mixed or by keyword
+      a, b = gen_text(rng), gen_text(rng)
+      want = ('value', 'first=%s;second=%s' % (a, b))
+      style = rng.choice(['pos', 'pos', 'mixed', 'kw'])
+      if style == 'mixed':
+        return iface, 'concat', (a,), {'second': b}, want
+      if style == 'kw':
+        return iface, 'concat', (), {'first': a, 'second': b}, want     # (the oracle reads keywords in declared order)
+      return iface, 'concat', (a, b), {}, want
     if k == 'add':
       a, b = rng.randint(-2**31, 2**31 - 1), rng.randint(-2**62, 2**62)
       style = rng.choice(['pos', 'pos', 'mixed', 'kw'])
